@@ -20,7 +20,7 @@ func init() {
 			"(R2) no aliasing: nothing derived by slicing from the connection read buffer's Bytes() is stored into a frame field, wrapped by NewIoBufferBytes or published through variable.Set (copy/Write/string() are the barriers). " +
 			"(R3) the fast path returns the retained buffer only under every dirty bit the frame's mutators write (or the mutators drop the retained bytes), and writes nothing but the id patch into retained memory. " +
 			"(R4) every narrowing conversion of a length that is written to the wire is dominated by a bound check. " +
-			"(R5) the TCP relay writes a Clone of the received buffer, drains exactly Len() after the write, and a remote close is propagated with FlushWrite. (R6) HTTP/1: no method that can set fasthttp.Request.parsedURI (URI, Host, SetHost, SetHostBytes, SetURI; table recomputed from fasthttp source in the thorough tier) is called on the client stream's outgoing request, so Write emits the request line exactly as it was set. (R7) in pkg/stream/http2 the []byte HandleFrame returns (a view of the read buffer) is only copied or measured: a taint analysis rejects wrapping (NewIoBufferBytes), stores outside locals, appends as a value and calls that may keep it. (R1, round 5) the length of the retained copy of a bolt/boltv2 frame is, as a linear form, a positive constant plus wire-length atoms with coefficient 1; arithmetic evaluated in an 8/16-bit type is opaque (it wraps), so int(classLen+headerLen) is not that sum.",
+			"(R5) the TCP relay writes a Clone of the received buffer, drains exactly Len() after the write, and a remote close is propagated with FlushWrite. (R6) HTTP/1: no method that can set fasthttp.Request.parsedURI (URI, Host, SetHost, SetHostBytes, SetURI; table recomputed from fasthttp source in the thorough tier) is called on the client stream's outgoing request, so Write emits the request line exactly as it was set. (R7) in pkg/stream/http2 the []byte HandleFrame returns (a view of the read buffer) is only copied or measured: a taint analysis rejects wrapping (NewIoBufferBytes), stores outside locals, appends as a value and calls that may keep it. (R1, round 5) the length of the retained copy of a bolt/boltv2 frame is, as a linear form, a positive constant plus wire-length atoms with coefficient 1; arithmetic evaluated in an 8/16-bit type is opaque (it wraps), so int(classLen+headerLen) is not that sum. (R8) every return of connection.doRead reachable from ReadOnce without passing onRead is dominated by n == 0, closed == 1 or err != io.EOF: data returned together with EOF is delivered.",
 		Run: runC01,
 	})
 }
@@ -39,6 +39,8 @@ func runC01(c *Ctx) {
 	defer c01HTTPRequestLine(c)
 	c.Rule("C01.R7", "HTTP/2 body chunks are copied out of the connection read buffer, never wrapped or kept", 2)
 	defer c01H2BodyCopied(c)
+	c.Rule("C01.R8", "bytes returned by a read are delivered to the filters even when the read also reported EOF", 2)
+	defer c01ReadBytesDelivered(c)
 	c.NotDecided = append(c.NotDecided, "HTTP/1.1 and HTTP/2 method/URI/header/body fidelity (runtime string values)", "tars byte identity (always re-encoded through TarsGo)", "header.EncodeHeader/DecodeHeader inverse property (dependency)")
 	c.Assumptions = append(c.Assumptions, "IoBuffer.Bytes() is a view of the buffer's array; Write/Clone/copy copy (mosn.io/pkg/buffer/iobuffer.go)", "passing wire bytes to TarsGo/thrift/hessian readers does not retain them in the frame")
 
